@@ -160,8 +160,18 @@ class Model:
         bc = os.path.join(self.work, 'amalg.bc')
         self._cc(src, bc)
         self.amalg = self._plain(bc, os.path.join(self.work, 'amalg.json'))
+        # give every function external linkage first, so that the inliner keeps each function (static
+        # helpers included) as an analysable body with *its* callees inlined, instead of deleting it
+        ll = os.path.join(self.work, 'amalg.ll')
+        run(['llvm-dis-14', bc, '-o', ll])
+        with open(ll) as fh:
+            text = fh.read()
+        text = re.sub(r'(?m)^define internal ', 'define ', text)
+        ext = os.path.join(self.work, 'amalg.ext.ll')
+        with open(ext, 'w') as fh:
+            fh.write(text)
         o = os.path.join(self.work, 'amalg.inl.bc')
-        run([OPT, '-passes=function(mem2reg),cgscc(inline),function(sroa,early-cse<memssa>)', '-inline-threshold=100000000', bc, '-o', o])
+        run([OPT, '-passes=function(mem2reg),cgscc(inline),function(sroa,early-cse<memssa>)', '-inline-threshold=100000000', ext, '-o', o])
         js = os.path.join(self.work, 'amalg.inl.json')
         with open(js, 'wb') as fh:
             fh.write(run([IRDUMP, o]))
